@@ -167,6 +167,9 @@ def execute(scn, seed, plans=None, snapshots=True, keep=False, stop_after=None, 
                 st.archive_path = str(src)
                 st.archive_info = _archive_rows(src)
             op["argv"] = S.op_argv(op)
+            if op.get("cwd") and not (root / op["cwd"]).is_dir():
+                op["cwd"] = ""      # the drawn directory does not exist (yet): start from the root
+            st.cwd_used = op.get("cwd", "")
             if snapshots:
                 st.before = sim.snapshot(root)
             if hook is not None:
@@ -256,6 +259,21 @@ def _plant(world, root, op):
             continue
         p = out / item["path"] if not item.get("outside") else root.parent / item["path"]
         kind = item["kind"]
+        if item.get("inside"):
+            # below an existing task output directory of the given flavour
+            import re as _re
+
+            pat = _re.compile(r"^[a-zA-Z0-9_-]+\.task(\.[1-9][0-9]*)?$" if item["inside"] == "any" else
+                              (r"^[a-zA-Z0-9_-]+\.task\.[1-9][0-9]*$" if item["inside"] == "exp" else r"^[a-zA-Z0-9_-]+\.task$"))
+            hosts = sorted(str(q) for q in out.rglob("*") if q.is_dir() and not q.is_symlink() and pat.match(q.name)
+                           and not any(_re.search(r"\.task(\.|$)", part) for part in q.relative_to(out).parts[:-1]))
+            if not hosts:
+                continue
+            p = pathlib.Path(hosts[item.get("idx", 0) % len(hosts)]) / item["path"]
+        if kind == "symlink" and item.get("target_outside"):
+            item = dict(item, target=str(root.parent / item["target_outside"]))
+        if kind in ("dir", "file") and os.path.lexists(p):
+            continue        # never touch what is already there
         if kind == "dir":
             p.mkdir(parents=True, exist_ok=True)
             for fn in item.get("files", []):
